@@ -136,6 +136,7 @@ pub fn check_phase(k: usize, before: bool) {
     }
     kani::cover!(n_log >= 2, "COVER|two-hooks-ran");
     kani::cover!(res.is_err(), "COVER|err");
+    kani::cover!(res.is_ok(), "COVER|ok");
     let sel: u8 = kani::any();
     match sel {
         0 => assert!(reg_ok && h.is_some() && other.is_none(), "OBL|C12|registration-outside-hooks-succeeds-and-is-per-mnemonic"),
